@@ -786,3 +786,20 @@ def unlock_while_closing_family(thin: int = 1) -> List[dict]:
                             steps += [nxt, {"op": "settle"}]
                             cases.append({"pools": [{"cls": "TaskPool", "size": size}], "steps": steps, "cfg": {"unlock_while_closing": True}})
     return cases[::thin] if thin > 1 else cases
+
+
+def many_ended_family() -> List[dict]:
+    """Hundreds of ended, never flushed tasks: every one of their ids still answers AlreadyEnded, alone and mixed with running ids."""
+    cases: List[dict] = []
+    for cls in ("TaskPool", "SimpleTaskPool"):
+        for big in (600, 1100):
+            for refs in ([["any", 0]], [["any", 1], ["any", big - 1]], [["live", 0], ["any", 0]], [["any", 300], ["live", 1]]):
+                first = {"op": "spawn", "pool": 0, "kind": "apply", "num": big, "place": "inline", "worker": {"script": [], "fname": "w"}}
+                second = {"op": "spawn", "pool": 0, "kind": "apply", "num": 2, "place": "inline", "worker": {"script": [["wait"]], "fname": "w"}}
+                steps = [first, {"op": "settle"}, second, {"op": "tick", "k": 3}, {"op": "cancel", "pool": 0, "refs": refs, "place": "inline"},
+                         {"op": "settle"}] + copy.deepcopy(DRAIN)
+                pool: Dict[str, Any] = {"cls": cls, "size": None}
+                if cls == "SimpleTaskPool":
+                    pool["worker"] = {"script": [], "fname": "w"}
+                cases.append({"pools": [pool], "steps": steps})
+    return cases
